@@ -227,13 +227,12 @@ func (p *parser) nud() *Node {
 	case tNot:
 		return &Node{Kind: KNot, Left: p.expression(bpNot)}
 	case tPlus, tMinus:
-		operand := p.expression(bp[tPlus])
+		// unary sign binds tighter than every binary operator (property C10): the
+		// operand takes selectors and brackets with it, but no arithmetic operator
+		operand := p.expression(bp[tStar])
 		n := &Node{Kind: KPos, Left: operand}
 		if t.kind == tMinus {
 			n.Kind = KNeg
-		}
-		if operand.Kind == KArith && (operand.Name == "//" || operand.Name == "%") {
-			n.U = "unary sign applied to // or % (grouping changes the result only for operands of different sign)"
 		}
 		return n
 	case tStar:
